@@ -86,12 +86,15 @@ func c06SetEq(model []string, impl []lockuptypes.PeriodLock) string {
 }
 
 func runC06(c *vk.Ctx) {
-	c.R.Rule = "cases = histories of LockTokens (new / add-to-existing), ExtendLockup, BeginUnlocking (full / partial → split), BeginUnlockingAll, SetRewardReceiverAddress, wrong-owner and invalid attempts, block-time jumps landing before / exactly at / after unlock end times, and matured-lock sweeps (real EndBlocker at heights divisible by 120; every 10th history runs 120 real consecutive blocks per sweep) by 4 owners over 3 denoms and 3 usual + up to 20 arbitrary durations; after every operation the module balance, LockedDenom(denom, d) for every used duration ±1ns and 0, 12 by-owner/denom/duration/time list queries (as sets), LockedByID and owner balance + locked conservation are compared with the lock book. distinct_nontrivial counts distinct (operation, outcome, #live locks bucket, #unlocking bucket, sweep mode) tuples."
+	c.R.Rule = "cases = histories of LockTokens (new / add-to-existing), ExtendLockup, BeginUnlocking (full / partial → split), BeginUnlockingAll, SetRewardReceiverAddress, wrong-owner and invalid attempts, block-time jumps landing before / exactly at / after unlock end times, and matured-lock sweeps (real EndBlocker at heights divisible by 120; every 10th history runs 120 real consecutive blocks per sweep) by 4 owners over 3 denoms (one a strict prefix of another; in every fourth history a concentrated share denom, whose matured locks are burned by design; in every third a factory denom merely containing cl/pool) and 3 usual + up to 20 arbitrary durations; after every operation the module balance, LockedDenom(denom, d) for every used duration ±1ns and 0, 12 by-owner/denom/duration/time list queries and the module-wide by-denom keeper lists GetLocksDenom / GetLocksLongerThanDurationDenom / GetLocksPastTimeDenom (as sets), LockedByID and owner balance + locked conservation are compared with the lock book. distinct_nontrivial counts distinct (operation, outcome, #live locks bucket, #unlocking bucket, sweep mode) tuples."
 	nHist := c.N(60, 480)
 	opsPer := c.N(60, 250)
-	denoms := []string{"foo", "bar", "baz"}
+	// "foo" is a strict prefix of "foox" (as gamm/pool/1 is of gamm/pool/10); "cl/pool/7" is a concentrated share
+	// denom, whose matured locks are burned by design instead of being returned
+	denoms := []string{"foo", "foox", "baz"}
+	const clShare = "cl/pool/7"
 	c.Cases("history", nHist, func(i int, r *vk.Rng) {
-		ch := chain.New(chain.Options{Denoms: denoms, NumAccounts: 5})
+		ch := chain.New(chain.Options{Denoms: append(append([]string{}, denoms...), clShare), NumAccounts: 5})
 		defer ch.Close()
 		ch.NextBlock(5 * time.Second)
 		owners := ch.Accs[:4]
@@ -112,6 +115,10 @@ func runC06(c *vk.Ctx) {
 				}
 			}
 		}
+		if i%4 == 2 {
+			denoms[1] = clShare
+		}
+		burned := map[string]sdkmath.Int{} // owner/denom -> concentrated shares burned at maturity
 		q := lockupkeeper.NewQuerier(*ch.App.LockupKeeper)
 		modAddr := authtypes.NewModuleAddress(lockuptypes.ModuleName)
 		realSweeps := i%10 == 9
@@ -161,6 +168,9 @@ func runC06(c *vk.Ctx) {
 						if l.owner == oi && l.denom == d {
 							locked = locked.Add(l.amt)
 						}
+					}
+					if b, ok := burned[fmt.Sprintf("%d/%s", oi, d)]; ok {
+						locked = locked.Add(b)
 					}
 					if got := ch.Bal(o.Addr, d).Add(locked); !got.Equal(start[fmt.Sprintf("%d/%s", oi, d)]) {
 						c.Violate("C06.conservation", sig(op), "after %s: owner %d balance + locked %s = %s, started with %s", op, oi, d, got, start[fmt.Sprintf("%d/%s", oi, d)])
@@ -356,6 +366,53 @@ func runC06(c *vk.Ctx) {
 					}
 				}
 			}
+			// module-wide by-denom lists (what x/incentives selects reward recipients with)
+			selAll := func(f func(l *c06Lock) bool) []string {
+				var out []string
+				for _, l := range m.locks {
+					if f(l) {
+						out = append(out, c06Render(l, owners))
+					}
+				}
+				return out
+			}
+			lkk := ch.App.LockupKeeper
+			for _, d := range denoms {
+				d := d
+				if msg := c06SetEq(selAll(func(l *c06Lock) bool { return l.denom == d }), lkk.GetLocksDenom(ctx, d)); msg != "" {
+					s := sig(op)
+					s["query"] = "GetLocksDenom"
+					c.Violate("C06.list_query", s, "after %s: GetLocksDenom(%s): %s", op, d, msg)
+					return false
+				}
+				for _, du := range dq {
+					du := du
+					if msg := c06SetEq(selAll(func(l *c06Lock) bool { return l.denom == d && l.dur >= du }), lkk.GetLocksLongerThanDurationDenom(ctx, d, du)); msg != "" {
+						s := sig(op)
+						s["query"] = "GetLocksLongerThanDurationDenom"
+						c.Violate("C06.list_query", s, "after %s: GetLocksLongerThanDurationDenom(%s, %s): %s", op, d, du, msg)
+						return false
+					}
+					nq++
+				}
+				for _, ts := range tps[:4] {
+					ts := ts
+					dur := time.Duration(0)
+					if ts.After(now) {
+						dur = ts.Sub(now)
+					}
+					w := selAll(func(l *c06Lock) bool {
+						return l.denom == d && ((l.unlocking() && l.end.After(ts)) || (!l.unlocking() && l.dur >= dur))
+					})
+					if msg := c06SetEq(w, lkk.GetLocksPastTimeDenom(ctx, d, ts)); msg != "" {
+						s := sig(op)
+						s["query"] = "GetLocksPastTimeDenom"
+						c.Violate("C06.list_query", s, "after %s: GetLocksPastTimeDenom(%s, t=now%+d ns): %s", op, d, ts.Sub(now), msg)
+						return false
+					}
+					nq++
+				}
+			}
 			// module-wide locked amount
 			ml, err := q.ModuleLockedAmount(ctx, &lockuptypes.ModuleLockedAmountRequest{})
 			wML := sdk.NewCoins()
@@ -389,6 +446,13 @@ func runC06(c *vk.Ctx) {
 			n := 0
 			for id, l := range m.locks {
 				if l.unlocking() && !l.end.After(at) {
+					if strings.HasPrefix(l.denom, "cl/pool") {
+						k := fmt.Sprintf("%d/%s", l.owner, l.denom)
+						if burned[k].IsNil() {
+							burned[k] = sdkmath.ZeroInt()
+						}
+						burned[k] = burned[k].Add(l.amt)
+					}
 					delete(m.locks, id)
 					n++
 				}
